@@ -6,6 +6,9 @@ import os
 ROOT = os.path.dirname(os.path.dirname(os.path.abspath(__file__)))
 
 CLAIMS = {
+ "C17": ("Lean 4 theorems: layout_pinned / constants_pinned (every serialized struct layout and format constant extracted from the CURRENT source by the translator equals the snapshot taken from the pinned release), the decode/encode round-trips of the record header, blob header (Props/C05), index file (Props/C09 load_build, bytes_length) and bloom/range images (Props/C10), aHash constants. Tie: a committed corpus of directories written by the pinned release (key sizes 4/8/33/128, bloom on/off, markers, metadata, stale and fresh indexes, a two-level tree): for every directory and several subsets of removed index files the generating history is replayed on the model and the current code, the directory is swapped for the pinned one and every recorded query must answer as recorded; foreign key size / blob version / index version opens are checked against the property's rejection clause.",
+         "4/C17", "the corpus was produced by the pinned tree plus the add-only hook commits; index files written by the pinned release are byte-compared only through C09's image check of freshly written files",
+         "Lean 4 proof (layouts and constants = pinned snapshot; codec round-trips) + translator + corpus replay"),
  "C01": ("Lean 4 theorems (Props/C01.lean): for every operation history from init and every key, read/contains of the model equal the rank-first record of the Spec (run_read_eq_spec, run_contains_eq_spec, read_notFound_iff, prune_transparent, apply_log); the model is tied to the code by a differential correspondence (real library in-process vs compiled Lean model) with a Spec-level oracle judging the implementation.",
          "4/C01", "L2 theorems with index residence abstracted (C09 ties the on-disk index to the vector) and filters as a sound-pruning parameter (C10); trusted: Lean kernel, Spec, harness + generator, translator",
          "Lean 4 refinement proof (model = Spec over all histories) + model/implementation correspondence"),
